@@ -347,10 +347,11 @@ CHECKS["C28"] = dict(
 
 CHECKS["C38"] = dict(
     src="C38.cpp", level="model_checking",
-    entries=[dict(name="harness_c38", quick={"npoints": 3, "maxd": 2, "X": 5, "B": 1}, thorough={"npoints": 4, "maxd": 3, "X": 100000, "B": 9, "halves": 1, "_wall": 1700})],
+    entries=[dict(name="harness_c38", quick={"npoints": 3, "maxd": 2, "X": 5, "B": 1}, thorough={"npoints": 4, "maxd": 3, "X": 100000, "B": 9, "halves": 1, "_wall": 1700}),
+             dict(name="harness_c38_ratcentre", quick={"npoints": 3, "maxd": 2, "X": 3, "B": 1, "cden": 2, "sorted": 1}, thorough={"npoints": 3, "maxd": 2, "X": 6, "B": 2, "cden": 3, "halves": 1})],
     anchors=["SymEngine::generate_fdiff_weights_vector"],
-    bounds="grids of 3 (4) distinct points from {-2..2} (thorough: also the half-integer grids), every grid enumerated; centre x0 a symbolic integer |x0|<=5 (1e5) and test polynomial of degree < grid size with symbolic integer coefficients |a|<=1 (9): sum_j w_kj p(g_j) == p^(k)(x0) exactly for k <= 2 (3)",
-    outside=["symbolic (Symbol) grid points", "rational centres", "grids of more than 4 points"],
+    bounds="grids of 3 (4) distinct points from {-2..2} (thorough: also the half-integer grids), every grid enumerated; centre x0 a symbolic integer |x0|<=5 (1e5) and test polynomial of degree < grid size with symbolic integer coefficients |a|<=1 (9): sum_j w_kj p(g_j) == p^(k)(x0) exactly for k <= 2 (3); second entry: centre a symbolic rational n/d, |n|<=3 (6), 1<=d<=2 (3), not in lowest terms, over the increasing (thorough: all ordered) 3-point grids, expected derivative computed in exact rational arithmetic",
+    outside=["symbolic (Symbol) grid points", "rational centres with denominators above 3", "grids of more than 4 points"],
 )
 
 CHECKS["C30"] = dict(
